@@ -296,8 +296,22 @@ func (self *Interpreter) infixHelper(lhs ast.AnalyzedExpression, rhs ast.Analyze
 		case pAst.PowerInfixOperator:
 			intRes = value.IntPow(lhsInt.Inner, rhsInt.Inner)
 		case pAst.ShiftLeftInfixOperator:
+			if rhsInt.Inner < 0 {
+				return nil, nil, value.NewRuntimeErr(
+					"Negative shift amount: this is operation is illegal",
+					value.ValueErrorKind,
+					rhs.Span(),
+				)
+			}
 			intRes = lhsInt.Inner << rhsInt.Inner
 		case pAst.ShiftRightInfixOperator:
+			if rhsInt.Inner < 0 {
+				return nil, nil, value.NewRuntimeErr(
+					"Negative shift amount: this is operation is illegal",
+					value.ValueErrorKind,
+					rhs.Span(),
+				)
+			}
 			intRes = lhsInt.Inner >> rhsInt.Inner
 		case pAst.BitOrInfixOperator:
 			intRes = lhsInt.Inner | rhsInt.Inner
